@@ -29,7 +29,8 @@ MANIFEST = {
             "Correspondence: real bnp.open reads (plain=seek, gzip=carry, lazy and eager) of files with one injected violation at every "
             "record position and chunk size vs the Lean end-to-end model readValidate (C01 reader model + validation), and vs the oracle "
             "'error, never a table; FormatException line inside the offending record'.",
-    "note": "Column-count violations are decided on the implementation only (no FormatException is involved). The end-to-end theorem readValidate_line composes "
+    "note": "Files of ANY content (a last record cut off anywhere, a missing '+' line): readValidateT_any_file / chunk_size_independent_any_file / truncated_line "
+            "(the repaired end-of-file test, fix a0fa304) hold for every byte string, chunk size and mode. Column-count violations are decided on the implementation only (no FormatException is involved). The end-to-end theorem readValidate_line composes "
             "C01's entries_chunks_kLine (chunks are entry-aligned for every k) with line_number_kline.",
     "technique": "Lean 4 induction over chunkings (reported line invariance) + differential correspondence on injected violations",
     "design": "§6 C15",
